@@ -281,6 +281,8 @@ type obs struct {
 	Size     int64           `json:"size,omitempty"`
 	MtimeNs  int64           `json:"mtime_ns,omitempty"`
 	Ino      uint64          `json:"ino,omitempty"`
+	Uid      uint32          `json:"uid"`
+	Gid      uint32          `json:"gid"`
 	Sha      string          `json:"sha1,omitempty"`
 	Target   string          `json:"target,omitempty"`
 	Children map[string]*obs `json:"children,omitempty"`
@@ -291,7 +293,7 @@ func observe(full string) *obs {
 	if err := syscall.Lstat(full, &st); err != nil {
 		return &obs{Kind: "absent"}
 	}
-	o := &obs{Mode: st.Mode & 0o7777, Ino: st.Ino}
+	o := &obs{Mode: st.Mode & 0o7777, Ino: st.Ino, Uid: st.Uid, Gid: st.Gid}
 	switch st.Mode & syscall.S_IFMT {
 	case syscall.S_IFREG:
 		o.Kind = "file"
@@ -332,6 +334,9 @@ func equalObs(a, b *obs) (bool, string) {
 	}
 	if a.Mode != b.Mode {
 		return false, fmt.Sprintf("mode %o -> %o", a.Mode, b.Mode)
+	}
+	if a.Uid != b.Uid || a.Gid != b.Gid {
+		return false, fmt.Sprintf("owner %d:%d -> %d:%d", a.Uid, a.Gid, b.Uid, b.Gid)
 	}
 	switch a.Kind {
 	case "file":
